@@ -241,7 +241,7 @@ def run(rng, tier, model_ok):
         "evaluations": len(sessions) * nq * 2, "distinct_nontrivial": nq,
         "rule": "query set: every shipped fact's own words, every single word, two-word heads, ambiguous 1-4 letter prefixes, pairs of word "
                 "prefixes; sessions: repeated in-memory builds in separate processes, first on-disk build, reopen twice, rebuild over the "
-                "existing directory, reopen; per query the top document (identity = words, value, description) and the anything::query result "
+                "existing directory, reopen, and in-memory / on-disk sessions taking turns on one directory (also after a killed first build); per query the top document (identity = words, value, description) and the anything::query result "
                 "with descriptions must agree across all sessions; non-trivial = distinct queries",
         "samples": samples, "mismatches": mismatches, "failures": failures,
         "extra": {"sessions": [l for l, _, _ in sessions], "queries": dist, "queries_with_tied_best_documents": tied_queries,
